@@ -26,8 +26,8 @@ FUNCTIONS = ["wannierberri.calculators.static.Ohmic_FermiSea/Ohmic_FermiSurf, Be
              "wannierberri.formula.covariant.Der3E, Omega, DerOmega, Spin, DerSpin, Morb_H, Morb_Hpm, DerMorb_H, DerMorb, VelOmega, VelHplus, VelSpin, VelVel, VelVelVel, MassVel",
              "wannierberri.formula.elementary.InvMass, DerWln, DerDcov, Dcov, Eavln and the other building blocks they pull in",
              "wannierberri.formula.formula.Formula_ln.trace, Matrix_ln, Matrix_GenDer_ln, FormulaProduct",
-             "wannierberri.data_K.data_K.Data_K.covariant, D_H, Dcov, dEig_inv (at k), get_A_H", "wannierberri.result.EnergyResult.mul_array/__sub__/__mul__"]
-BOUNDS = dict(quick=dict(nb="2 (plus two nb=3 cases: Berry dipole middle band, spin gyrotropic top band)", groups="each non-degenerate band as its own group (lower, upper)", variants="default switches (external terms on) and external_terms=False",
+             "wannierberri.data_K.data_K.Data_K.covariant, D_H, Dcov, dEig_inv (at k), get_A_H", "wannierberri.data_K.data_K_R.Data_K_R.Xbar (OO / GG derived from FF)", "wannierberri.result.EnergyResult.mul_array/__sub__/__mul__"]
+BOUNDS = dict(quick=dict(nb="2 (plus two nb=3 cases: Berry dipole middle band, spin gyrotropic top band)", groups="each non-degenerate band as its own group (lower, upper)", variants="default switches (external terms on), external_terms=False, OO_uIu=True with OO derived from FF by the real Data_K_R.Xbar",
                          directions="all three k-directions of the displacement, all tensor components", E_F="two values (the results are affine in E_F)"),
               thorough=dict(nb="2 and 3", groups="every single band", variants="as quick", directions="as quick", E_F="as quick"))
 EXPLANATION = ("The model at k is its Taylor jet: symbolic band energies, fully symbolic H-gauge matrices of the Hamiltonian derivatives (orders 1-3) and of every external-term "
@@ -190,15 +190,37 @@ class DispX(dict):
         return R.view(SymArray) if s.sym else R
 
 
-def base_shell(nb, E, concrete=None):
-    X0 = BaseX(nb, E, concrete=concrete)
-    return B.shell(nb, E, X0), X0
+class NoOO:
+    """a system that stores FF but neither OO nor GG: the real Data_K_R.Xbar derives them from FF (the default of systems built with the OSD matrices)"""
+
+    def has_R_mat(s, k):
+        return k in B.SPEC and k not in ("OO", "GG")
 
 
-def disp_shell(nb, E, X0, a, e):
-    DX = DispX(X0, E, a, e, nb)
+class BaseXF(BaseX):
+    def __contains__(s, key):
+        return key[0] in B.SPEC and key[0] not in ("OO", "GG")
+
+
+class DispXF(DispX):
+    def __contains__(s, key):
+        return key[0] in B.SPEC and key[0] not in ("OO", "GG")
+
+
+def base_shell(nb, E, concrete=None, derive_OO=False):
+    X0 = (BaseXF if derive_OO else BaseX)(nb, E, concrete=concrete)
+    dk = B.shell(nb, E, X0)
+    if derive_OO:
+        dk.system = NoOO()
+    return dk, X0
+
+
+def disp_shell(nb, E, X0, a, e, derive_OO=False):
+    DX = (DispXF if derive_OO else DispX)(X0, E, a, e, nb)
     dk = B.shell(nb, DX.Ee, DX)
     dk.__dict__["dEig_inv"] = DX.dEig_inv()
+    if derive_OO:
+        dk.system = NoOO()
     return dk, DX
 
 
@@ -346,7 +368,7 @@ def groups_for(nb):
     return [(i, i + 1) for i in range(nb)]
 
 
-def case_pair(rec, pair, nb, kw, a, Ef, group):
+def case_pair(rec, pair, nb, kw, a, Ef, group, derive_OO=False):
     shadow(MODS)
     e = install_eps()
     E = symvec("E", (1, nb))
@@ -354,15 +376,15 @@ def case_pair(rec, pair, nb, kw, a, Ef, group):
     kw = dict(kw)
 
     def body(rec):
-        dk0, X0 = base_shell(nb, E)
-        rec.witness = lambda env: dict(test="pair", pair=pair, nb=nb, kw=kw, a=a, Ef=float(Ef), group=list(group), E=env.val(E[0]).tolist(),
+        dk0, X0 = base_shell(nb, E, derive_OO=derive_OO)
+        rec.witness = lambda env: dict(test="pair", pair=pair, nb=nb, kw=kw, a=a, Ef=float(Ef), group=list(group), derive_OO=derive_OO, E=env.val(E[0]).tolist(),
                                        X={f"{k[0]},{k[1]}": env.arr(v) for k, v in dict.items(X0)})
         sea, csea = run_calc(sea_cls, dk0, kw, Ef, group, accepts)
         surf, csurf = run_calc(surf_cls, dk0, kw, Ef, group, accepts)
         rec.concrete(f"{pair}: the two calculators carry the same constant factor", csea.constant_factor == csurf.constant_factor and csea.fder == 0 and csurf.fder == 1,
                      detail=f"{csea.constant_factor} / {csurf.constant_factor}; fder {csea.fder}/{csurf.fder}", key=f"{pair}: sea and surface calculators differ in constant factor or fder")
         X0v = X_value(dk0, pair, kw, Ef, group, nb)
-        dke, DX = disp_shell(nb, E, X0, a, e)
+        dke, DX = disp_shell(nb, E, X0, a, e, derive_OO=derive_OO)
         Xe = X_value(dke, pair, kw, Ef, group, nb)
         Xe0, Xe1 = split_arr(Xe)
         rec.eq(f"{pair}: X evaluated on the displaced jet reduces to X at eps=0", Xe0, np.asarray(X0v), key=f"{pair}: displaced evaluation inconsistent at eps=0 (harness oracle)")
@@ -422,6 +444,14 @@ def cases(tier, seed):
                                 continue      # same code as BerryDipole; the factor obligation is what it adds
                             out.append(Case(f"{pair} {vl} nb={nb} group={group} a={a} Ef={Ef}", case_pair, dict(pair=pair, nb=nb, kw=kw, a=a, Ef=Ef, group=group),
                                             timeout=900 if q else 3000))
+    # OO_uIu=True on a system that stores FF but not OO: the real Data_K_R.Xbar derives OO and its comma-derivatives from FF
+    for pair in ("BerryDipole", "GME_orb"):
+        for group in groups_for(2):
+            for a in ((1,) if q and pair == "GME_orb" else range(3)):
+                if q and group != (0, 1) and a != 0:
+                    continue
+                out.append(Case(f"{pair} OO_uIu=True (OO derived from FF) nb=2 group={group} a={a} Ef=0", case_pair,
+                                dict(pair=pair, nb=2, kw=dict(OO_uIu=True), a=a, Ef=Fr(0), group=group, derive_OO=True), timeout=900 if q else 3000))
     if q:
         out.append(Case("BerryDipole  nb=3 group=(1, 2) a=0 Ef=0", case_pair, dict(pair="BerryDipole", nb=3, kw={}, a=0, Ef=Fr(0), group=(1, 2)), timeout=900))
         out.append(Case("GME_spin  nb=3 group=(2, 3) a=1 Ef=0", case_pair, dict(pair="GME_spin", nb=3, kw={}, a=1, Ef=Fr(0), group=(2, 3)), timeout=900))
@@ -438,7 +468,8 @@ def replay(rec):
     if nb > 1 and np.any(np.diff(E[0]) < 1e-3):
         E = np.cumsum(np.abs(E) + 1.1, axis=1)
     conc = w.get("X", {})
-    dk0, X0 = base_shell(nb, E, concrete=conc)
+    dOO = bool(w.get("derive_OO"))
+    dk0, X0 = base_shell(nb, E, concrete=conc, derive_OO=dOO)
     if w["test"] == "pt":
         worst = 0.0
         for a in range(3):
@@ -464,8 +495,8 @@ def replay(rec):
     surf, csurf = run_calc(surf_cls, dk0, kw, Ef, group, accepts)
     X0v = np.asarray(X_value(dk0, pair, kw, Ef, group, nb))
     h = 1e-5
-    Xp = np.asarray(X_value(disp_shell(nb, E, X0, a, +h)[0], pair, kw, Ef, group, nb))
-    Xm = np.asarray(X_value(disp_shell(nb, E, X0, a, -h)[0], pair, kw, Ef, group, nb))
+    Xp = np.asarray(X_value(disp_shell(nb, E, X0, a, +h, derive_OO=dOO)[0], pair, kw, Ef, group, nb))
+    Xm = np.asarray(X_value(disp_shell(nb, E, X0, a, -h, derive_OO=dOO)[0], pair, kw, Ef, group, nb))
     dX = (Xp - Xm) / (2 * h)
     v_a = np.asarray(X0[("Ham", 1)])[0, group[0], group[0], a].real
     e_sea = np.abs(take(sea, slot, a) - np.sign(csea.constant_factor) * dX).max()
